@@ -380,7 +380,7 @@ def c10_make(rng, tier, i):
     shape = [(3,), (2, 2), (4,)][int(rng.integers(0, 3))]
     fams = [("alias", "binary"), ("alias", "sparse", "binary"), ("alias", "binary", "unary", "sparse", "reduce"), ("alias",), ("sparse", "alias"), ("user", "alias", "binary"), ("user", "sparse", "unary")][i % 7]
     prog = programs.gen_program(rng, n_ops=n_ops, shape=shape, p_dead=0.0, p_multi=0.5, families=fams, fan=int(rng.integers(1, 4)), n_out=1)
-    end = ["raw", "x_plus_x", "views_sum", "weighted", "sparse_end", "tuple_out"][int(rng.integers(0, 6))]
+    end = ["raw", "x_plus_x", "views_sum", "weighted", "sparse_end", "tuple_out", "independent", "identity"][int(rng.integers(0, 8))]
     x = rng.uniform(0.3, 1.4, size=shape) * rng.choice([-1.0, 1.0], size=shape)
     hist = [str(t) for t in rng.choice(["g1", "g2", "g1", "other", "g3", "jac"], size=int(rng.integers(3, 7)))]
     return {"kind": "c10", "prog": programs.enc_program(prog), "x": enc(x), "end": end, "hist": hist, "gseed": int(rng.integers(0, 2**31))}
@@ -406,6 +406,10 @@ def _c10_fun(prog, end, xp, U, consts2):
         if end == "sparse_end":
             fl = xp.ravel(last)
             return xp.reshape(fl[onp.arange(size)[::-1]], shape) + last[...] + last
+        if end == "independent":
+            return consts2 * 2.0  # does not depend on x: every pull-back is an exact zero of x's space
+        if end == "identity":
+            return x  # the caller's cotangent object is itself the answer
         if end == "tuple_out":
             if xp is onp:
                 return (last, last + 0.0, onp.ravel(last)[0])
@@ -491,6 +495,13 @@ def c10_case(res, case, tier):
                             if not bits_equal(r, fresh):
                                 return _viol(res, sig, "unstable_repeat", case, "call %r of the history returned a result different from a fresh single call (%s)" % (h, mode))
                             handed.append((r, vhash(r)))
+                            # the caller owns what it was handed: it accumulates into it (unless the answer is
+                            # one of its own arrays, e.g. its cotangent returned as is)
+                            if not frozen and isinstance(r, onp.ndarray) and r.flags.writeable and r.size and r.dtype.kind in "fc" \
+                                    and not any(onp.shares_memory(r, a) for a in foreign) and not any(isinstance(q, onp.ndarray) and onp.shares_memory(r, q) for q, _ in handed[:-1]):
+                                r += 1.0
+                                handed[-1] = (r, vhash(r))
+                                _cnt(res, "caller_wrote_into_result", 1)
                         bad = audit("after " + h)
                         if bad:
                             return _viol(res, sig, "foreign_write", case, bad)
